@@ -1,114 +1,43 @@
 /-
 Stateful history family (C04, C05, C06, C07, C12, C17): the Model P object machine
-(ZtypV.View.Machine) next to the plain *value machine* (reference semantics of DESIGN §6 C04),
-fed the same op lines.  Observation format = harness/ops_hist.go.
+(`ZtypV.Sim.stepM`) next to the plain value machine (`ZtypV.Sim.stepV`, the reference semantics
+of DESIGN §6 C04), fed the same operations.  Observation format = harness/ops_hist.go.
 -/
 import Driver.Proto
-import ZtypV.Model.Machine
-import ZtypV.Model.Decode
+import ZtypV.Model.Sim
 import ZtypV.Model.Iter
 namespace Driver.OpsHist
-open ZtypV ZtypV.View Driver
-
-/-- value-machine handle: a plain value with an optional (parent, slot) to write back to -/
-structure VH where
-  ty : Ty
-  val : Val
-  parent : Option (String × Nat)
+open ZtypV ZtypV.View ZtypV.Sim Driver
 
 structure HState where
-  store : Store := #[]
+  ms : Store := #[]                        -- object machine (Model P)
+  vs : VStore := #[]                       -- value machine (reference semantics)
   ids : List (String × Nat) := []          -- handle name → object id (latest binding first)
-  vals : List (String × VH) := []          -- value machine
   bound : Option Nat := none               -- C07: allowed hash calls since the last hcount (none = unbounded)
   partialTree : Bool := false              -- C12: some backing has been summarised: errors are allowed, wrong data is not
 
 def sha : HashFn := Sha.sha256Pair
 
 def HState.id? (s : HState) (n : String) : Option Nat := (s.ids.find? (·.1 == n)).map (·.2)
-def HState.vh? (s : HState) (n : String) : Option VH := (s.vals.find? (·.1 == n)).map (·.2)
-def HState.bind (s : HState) (n : String) (o : VObj) : HState :=
-  { s with ids := (n, s.store.size) :: s.ids, store := s.store.push o }
-def HState.bindV (s : HState) (n : String) (v : VH) : HState := { s with vals := (n, v) :: s.vals }
-def HState.setV (s : HState) (n : String) (v : VH) : HState :=
-  { s with vals := s.vals.map fun (k, x) => if k == n then (k, v) else (k, x) }
 
-def errClass : Err → String
-  | .panic => "panic"
-  | _ => "err"
-
-/-! ### value machine -/
-
-def listSet {α} (xs : List α) (i : Nat) (x : α) : List α := xs.set i x
-
-/-- `Set(i, x)` on a plain value -/
-def valSet (t : Ty) (v : Val) (i : Nat) (x : Val) : Option Val :=
-  match t, v with
-  | .vector _ _, .seq vs | .list _ _, .seq vs | .container _, .seq vs =>
-    if i < vs.length then some (.seq (vs.set i x)) else none
-  | .bitvector _, .bits bs | .bitlist _, .bits bs =>
-    match x with
-    | .bool b => if i < bs.length then some (.bits (bs.set i b)) else none
-    | _ => none
-  | _, _ => none
-
-def valAppend (t : Ty) (v : Val) (x : Val) : Option Val :=
-  match t, v with
-  | .list _ lim, .seq vs => if vs.length < lim then some (.seq (vs ++ [x])) else none
-  | .bitlist lim, .bits bs =>
-    match x with
-    | .bool b => if bs.length < lim then some (.bits (bs ++ [b])) else none
-    | _ => none
-  | _, _ => none
-
-def valPop (t : Ty) (v : Val) : Option Val :=
-  match t, v with
-  | .list _ _, .seq vs => if vs.isEmpty then none else some (.seq vs.dropLast)
-  | .bitlist _, .bits bs => if bs.isEmpty then none else some (.bits bs.dropLast)
-  | _, _ => none
-
-def valElem (t : Ty) (v : Val) (i : Nat) : Option (Ty × Val) :=
-  match t, v with
-  | .vector e _, .seq vs | .list e _, .seq vs => vs[i]?.map fun x => (e, x)
-  | .container fs, .seq vs => do let ft ← fs[i]?; let x ← vs[i]?; pure (ft, x)
-  | .bitvector _, .bits bs | .bitlist _, .bits bs => bs[i]?.map fun b => (.bool, .bool b)
-  | _, _ => none
-
-/-- write a changed value back up the (parent, slot) chain; the flag says whether every
-    slot on the way still existed (a stale handle whose slot was popped away keeps its own
-    new value but the write does not reach the parent: that is reported as an error) -/
-partial def writeBack (s : HState) (name : String) : HState × Bool :=
-  match s.vh? name with
-  | none => (s, true)
-  | some vh =>
-    match vh.parent with
-    | none => (s, true)
-    | some (p, slot) =>
-      match s.vh? p with
-      | none => (s, true)
-      | some pv =>
-        match valSet pv.ty pv.val slot vh.val with
-        | none => (s, false)
-        | some nv => writeBack (s.setV p { pv with val := nv }) p
-
-/-! ### helpers -/
-
-def obsOf (t : Ty) (n : Node) : String :=
-  let root := hex (n.root sha)
-  match serializeView t n with
-  | .error .panic => "panic"
-  | .error _ => s!"ok {root} ser-err"
-  | .ok bs =>
-    match viewVal t n with
-    | .error .panic => "panic"
-    | .error _ => s!"ok {root} {xhex bs} extract-err"
-    | .ok v => s!"ok {root} {xhex bs} {showVal v}"
-
-def specObs (t : Ty) (v : Val) : String :=
-  s!"ok {hex (htr sha t v)} {xhex (serialize t v)} {showVal v}"
+/-- keep the two stores index-aligned after a step (a creation that happened on one side only
+    gets a dummy on the other; such a step has already been given a failing verdict) -/
+def HState.align (s : HState) : HState :=
+  let n := max s.ms.size s.vs.size
+  { s with ms := s.ms ++ Array.replicate (n - s.ms.size) { ty := .bool, node := .leaf z0, hook := none },
+           vs := s.vs ++ Array.replicate (n - s.vs.size) { ty := .bool, val := .none, parent := none } }
 
 def natTok (s : String) : Except String Nat :=
   match s.toNat? with | some n => .ok n | none => .error s!"bad number {s}"
+
+def render : Out → String
+  | .ok => "ok" | .err => "err" | .panic => "panic" | .nohandle => "nohandle"
+  | .okNone => "ok none" | .okSome => "ok some"
+  | .obs r none _ => s!"ok {hex r} ser-err"
+  | .obs r (some bs) none => s!"ok {hex r} {xhex bs} extract-err"
+  | .obs r (some bs) (some v) => s!"ok {hex r} {xhex bs} {showVal v}"
+  | .num n => s!"ok {n}"
+  | .val v => s!"ok {showVal v}"
 
 /-- depth of the hook chain's path: allowed hash calls for one mutation through object `id` -/
 partial def pathBound (st : Store) (id : Nat) : Nat :=
@@ -121,47 +50,6 @@ partial def pathBound (st : Store) (id : Nat) : Nat :=
     match o.hook with
     | none => here
     | some (p, _) => here + pathBound st p
-
-def addBound (s : HState) (id : Nat) : HState :=
-  { s with bound := s.bound.map (· + pathBound s.store id) }
-
-/-- apply a mutation result to object `id` (SetBacking + propagation) -/
-def applyMut (s : HState) (id : Nat) (r : R Node) : HState × String :=
-  match r with
-  | .error e => (s, errClass e)
-  | .ok b =>
-    let (st', err) := setBacking sha (s.store.size + 1) s.store id b
-    let s' := addBound { s with store := st' } id
-    match err with
-    | none => (s', "ok")
-    | some e => (s', errClass e)
-
-/-- apply a value-machine mutation to handle `name` -/
-def applyVal (s : HState) (name : String) (f : VH → Option Val) : HState × Bool :=
-  match s.vh? name with
-  | none => (s, false)
-  | some vh =>
-    match f vh with
-    | none => (s, false)
-    | some nv => writeBack (s.setV name { vh with val := nv }) name
-
-/-- value-machine side of a mutation plus its verdict.  On a summarised backing (C12) an
-    error is always acceptable and then leaves the value unchanged. -/
-def finishMut (s : HState) (name : String) (impl : List String) (f : VH → Option Val)
-    (verdictOf : List String → Bool → String) : HState × String :=
-  if s.partialTree && impl == ["err"] then (s, "ok")
-  else
-    let (s', okV) := applyVal s name f
-    (s', verdictOf impl okV)
-
-/-- verdict for a mutation: the implementation must succeed exactly when the plain value
-    operation is defined -/
-def mutVerdict (impl : List String) (specOk : Bool) : String :=
-  match impl with
-  | ["ok"] => if specOk then "ok" else "FAIL:mutation-accepted-but-invalid-on-value"
-  | ["err"] => if specOk then "FAIL:valid-mutation-rejected" else "ok"
-  | ["panic"] => "FAIL:panic"
-  | _ => "FAIL:unexpected-observation"
 
 /-! ### iterators -/
 
@@ -192,7 +80,47 @@ def isHistOp (n : String) : Bool :=
   ["begin", "mk", "get", "val", "copy", "set", "setv", "app", "pop", "chg", "obs", "len", "rd",
    "snap", "chk", "memo", "hcount", "sum", "iter", "rset", "rtxt"].contains n
 
+/-- PROP verdict of an operation of the two machines: the implementation's observation must be
+    what the plain value machine says.  On a summarised backing (C12) an error is acceptable
+    where the value machine succeeds, a different answer is not. -/
+def verdict (partialTree : Bool) (impl : List String) (spec : Out) : String :=
+  let im := " ".intercalate impl
+  if im == "panic" then "FAIL:panic"
+  else if im == render spec then "ok"
+  else if partialTree then
+    match spec with
+    | .obs r (some bs) (some v) =>
+      let rootOk := impl.take 2 == ["ok", hex r]
+      let serTok := impl.getD 2 ""
+      let serOk := serTok == "ser-err" || serTok == xhex bs
+      let valOk := serTok == "ser-err" || impl.drop 3 == ["extract-err"] || " ".intercalate (impl.drop 3) == showVal v
+      if rootOk && serOk && valOk then "ok" else s!"FAIL:partial-view-yields-different-data:spec={(render spec).take 300}"
+    | _ => if im == "err" then "ok" else s!"FAIL:partial-view-yields-different-data:spec={(render spec).take 300}"
+  else s!"FAIL:view-differs-from-value:spec={(render spec).take 300}"
+
+/-- run one machine op on both machines -/
+def both (s : HState) (op : Op) (impl : List String) (newName : Option String := none)
+    (mutated : Option Nat := none) : HState × String × String :=
+  let (ms', om) := stepM sha s.ms op
+  -- on a summarised backing an erring mutation must leave the value unchanged
+  let skipV := s.partialTree && impl == ["err"] && mutated.isSome
+  let (vs', ov) := if skipV then (s.vs, Out.err) else stepV sha s.vs op
+  let created := ms'.size > s.ms.size
+  let s1 : HState := { s with ms := ms', vs := vs' }
+  let s2 := match newName with
+    | some n => if created then { s1 with ids := (n, s.ms.size) :: s1.ids } else s1
+    | none => s1
+  let s3 := match mutated with
+    | some id => { s2 with bound := s2.bound.map (· + pathBound s2.ms id) }
+    | none => s2
+  (s3.align, render om, if skipV then "ok" else verdict s.partialTree impl ov)
+
 def step (s : HState) (name : String) (args impl : List String) : Except String (HState × String × String) := do
+  let withId (h : String) (k : Nat → Except String (HState × String × String)) :
+      Except String (HState × String × String) :=
+    match s.id? h with
+    | none => pure (s, "nohandle", "ok")
+    | some id => k id
   match name, args with
   | "begin", _ => return ({}, "ok", "ok")
   | "mk", hn :: route :: rest =>
@@ -204,281 +132,106 @@ def step (s : HState) (name : String) (args impl : List String) : Except String 
       | "dec" => decodeTop sha t (serialize t v)
       | _ => .error .other
     match r with
-    | .error e => return (s, errClass e, if impl == ["ok"] then "ok" else "FAIL:construction-failed")
+    | .error e => return (s, render (outOfErr e), if impl == ["ok"] then "ok" else "FAIL:construction-failed")
     | .ok n =>
-      let s' := (s.bind hn { ty := t, node := n, hook := none }).bindV hn { ty := t, val := v, parent := none }
-      return ({ s' with bound := none }, "ok", if impl == ["ok"] then "ok" else "FAIL:construction-failed")
-  | "get", h2 :: h1 :: i :: _ =>
-    let i ← natTok i
-    match s.id? h1 with
-    | none => return (s, "nohandle", "ok")
-    | some pid =>
-      let po := s.store[pid]!
-      let specElem := (s.vh? h1).bind fun vh => valElem vh.ty vh.val i
-      match getElemNode po.ty po.node i with
-      | .error e =>
-        return (s, errClass e, mutVerdict (if impl == ["ok"] then ["ok"] else impl) specElem.isSome)
-      | .ok (et, en) =>
-        if !viewFromBackingOk et en then return (s, "err", mutVerdict impl specElem.isSome) else
-        let hook := if keepsHook et && !(isBasicElem et) then some (pid, i) else none
-        let s' := s.bind h2 { ty := et, node := en, hook := hook }
-        let s'' := match specElem with
-          | some (_, x) => s'.bindV h2 { ty := et, val := x, parent := if keepsHook et then some (h1, i) else none }
-          | none => s'
-        return (s'', "ok", mutVerdict impl specElem.isSome)
-  | "val", h2 :: h1 :: _ =>
-    match s.id? h1 with
-    | none => return (s, "nohandle", "ok")
-    | some pid =>
-      let po := s.store[pid]!
-      match po.ty with
-      | .union hasNone opts =>
-        let r : R (Option (Ty × Node)) := do
-          let sn ← getNode po.node [true]
-          let rt ← asLeaf sn
-          if (rt.drop 1).any (· != 0) then .error .other
-          else
-            let sel := (rt.getD 0 0).toNat
-            if sel ≥ opts.length + (if hasNone then 1 else 0) then .error .other
-            else do
-              let c ← getNode po.node [false]
-              match unionOpt hasNone opts sel with
-              | none => pure none
-              | some ot => if viewFromBackingOk ot c then pure (some (ot, c)) else .error .other
-        match r with
-        | .error e => return (s, errClass e, if impl == ["err"] then "FAIL:union-value-unreadable" else "ok")
-        | .ok none => return (s, "ok none", "ok")
-        | .ok (some (ot, c)) =>
-          let s' := s.bind h2 { ty := ot, node := c, hook := none }
-          let s'' := match s.vh? h1 with
-            | some { val := .union _ x, .. } => s'.bindV h2 { ty := ot, val := x, parent := none }
-            | _ => s'
-          return (s'', "ok some", "ok")
-      | _ => return (s, "err", "ok")
-  | "copy", h2 :: h1 :: _ =>
-    match s.id? h1 with
-    | none => return (s, "nohandle", "ok")
-    | some pid =>
-      let po := s.store[pid]!
-      let s' := s.bind h2 { po with hook := none }
-      let s'' := match s.vh? h1 with
-        | some vh => s'.bindV h2 { vh with parent := none }
-        | none => s'
-      return (s'', "ok", if impl == ["ok"] then "ok" else "FAIL:copy-failed")
-  | "set", h1 :: i :: rest =>
+      let s' : HState := { s with ids := (hn, s.ms.size) :: s.ids,
+                                  ms := s.ms.push { ty := t, node := n, hook := none },
+                                  vs := s.vs.push { ty := t, val := v, parent := none }, bound := none }
+      return (s'.align, "ok", if impl == ["ok"] then "ok" else "FAIL:construction-failed")
+  | "get", h2 :: h1 :: i :: _ => do let i ← natTok i; withId h1 fun p => pure (both s (.get p i) impl (some h2))
+  | "val", h2 :: h1 :: _ => withId h1 fun p => pure (both s (.val p) impl (some h2))
+  | "copy", h2 :: h1 :: _ => withId h1 fun p => pure (both s (.copy p) impl (some h2))
+  | "set", h1 :: i :: rest => do
     let i ← natTok i
     let (x, _) ← runP val rest
-    match s.id? h1 with
-    | none => return (s, "nohandle", "ok")
-    | some pid =>
-      let po := s.store[pid]!
-      let et : Ty := match po.ty with
-        | .vector e _ | .list e _ => e
-        | .container fs => (fs[i]?).getD (fs.headD .bool)
-        | _ => .bool
-      match construct sha et x with
-      | .error e => return (s, errClass e, "ok")
-      | .ok en =>
-        let (s1, m) := applyMut s pid (Mut.set sha po.ty po.node i x en)
-        let (s2, vd) := finishMut s1 h1 impl (fun vh => valSet vh.ty vh.val i x) mutVerdict
-        return (s2, m, vd)
-  | "setv", h1 :: i :: h2 :: _ =>
+    withId h1 fun id => pure (both s (.set id i x) impl none (some id))
+  | "setv", h1 :: i :: h2 :: _ => do
     let i ← natTok i
-    match s.id? h1, s.id? h2 with
-    | some pid, some sid =>
-      let po := s.store[pid]!
-      let so := s.store[sid]!
-      let x := ((s.vh? h2).map (·.val)).getD .none
-      let (s1, m) := applyMut s pid (Mut.set sha po.ty po.node i x so.node)
-      let (s2, vd) := finishMut s1 h1 impl (fun vh => valSet vh.ty vh.val i x) mutVerdict
-      return (s2, m, vd)
-    | _, _ => return (s, "nohandle", "ok")
-  | "app", h1 :: rest =>
+    withId h1 fun id => withId h2 fun sid => pure (both s (.setv id i sid) impl none (some id))
+  | "app", h1 :: rest => do
     let (x, _) ← runP val rest
-    match s.id? h1 with
-    | none => return (s, "nohandle", "ok")
-    | some pid =>
-      let po := s.store[pid]!
-      let et : Ty := match po.ty with | .list e _ => e | _ => .bool
-      match construct sha et x with
-      | .error e => return (s, errClass e, "ok")
-      | .ok en =>
-        let (s1, m) := applyMut s pid (Mut.append sha po.ty po.node x en)
-        let (s2, vd) := finishMut s1 h1 impl (fun vh => valAppend vh.ty vh.val x) mutVerdict
-        return (s2, m, vd)
-  | "pop", h1 :: _ =>
-    match s.id? h1 with
-    | none => return (s, "nohandle", "ok")
-    | some pid =>
-      let po := s.store[pid]!
-      let (s1, m) := applyMut s pid (Mut.pop sha po.ty po.node)
-      let (s2, vd) := finishMut s1 h1 impl (fun vh => valPop vh.ty vh.val) mutVerdict
-      return (s2, m, vd)
-  | "chg", h1 :: sel :: rest =>
+    withId h1 fun id => pure (both s (.app id x) impl none (some id))
+  | "pop", h1 :: _ => withId h1 fun id => pure (both s (.pop id) impl none (some id))
+  | "chg", h1 :: sel :: rest => do
     let sel ← natTok sel
     let (x, _) ← runP val rest
-    match s.id? h1 with
-    | none => return (s, "nohandle", "ok")
-    | some pid =>
-      let po := s.store[pid]!
-      match po.ty with
-      | .union hasNone opts =>
-        let content : R (Option Node) := match x with
-          | .none => .ok none
-          | _ =>
-            let ot := (unionOpt hasNone opts sel).getD (opts.headD .bool)
-            (construct sha ot x).map some
-        match content with
-        | .error e => return (s, errClass e, "ok")
-        | .ok c =>
-          let (s1, m) := applyMut s pid (Mut.change po.ty sel c)
-          let specOk := match x with
-            | .none => hasNone && sel == 0
-            | _ => (unionOpt hasNone opts sel).isSome
-          let (s2, vd) := finishMut s1 h1 impl (fun _ => if specOk then some (.union sel x) else none) mutVerdict
-          return (s2, m, vd)
-      | _ => return (s, "err", "ok")
-  | "obs", h1 :: _ =>
-    match s.id? h1 with
-    | none => return (s, "nohandle", "ok")
-    | some pid =>
-      let po := s.store[pid]!
-      let m := obsOf po.ty po.node
-      let verdict := match s.vh? h1 with
-        | some vh =>
-          let sp := specObs vh.ty vh.val
-          if " ".intercalate impl == sp then "ok"
-          else if s.partialTree then
-            -- on a summarised backing: the root must still be right; bytes / components may be
-            -- unavailable (error) but never different
-            let rootOk := impl.take 2 == ["ok", hex (htr sha vh.ty vh.val)]
-            let serTok := impl.getD 2 ""
-            let serOk := serTok == "ser-err" || serTok == xhex (serialize vh.ty vh.val)
-            let valOk := serTok == "ser-err" || impl.drop 3 == ["extract-err"] || " ".intercalate (impl.drop 3) == showVal vh.val
-            if impl == ["panic"] then "FAIL:panic"
-            else if rootOk && serOk && valOk then "ok" else s!"FAIL:partial-view-yields-different-data:spec={sp.take 300}"
-          else s!"FAIL:view-differs-from-value:spec={sp.take 300}"
-        | none => "ok"
-      return (s, m, verdict)
-  | "len", h1 :: _ =>
-    match s.id? h1 with
-    | none => return (s, "nohandle", "ok")
-    | some pid =>
-      let po := s.store[pid]!
-      let r : R Nat := match po.ty with
-        | .list _ lim | .bitlist lim => listLength po.node lim
-        | .vector _ k | .bitvector k => .ok k
-        | .container fs => .ok fs.length
-        | _ => .error .other
-      let m := match r with | .ok n => s!"ok {n}" | .error e => errClass e
-      let verdict := match s.vh? h1 with
-        | some { val := .seq vs, .. } => if impl == ["ok", toString vs.length] || (s.partialTree && impl == ["err"]) then "ok" else "FAIL:length"
-        | some { val := .bits bs, .. } => if impl == ["ok", toString bs.length] || (s.partialTree && impl == ["err"]) then "ok" else "FAIL:length"
-        | _ => "ok"
-      return (s, m, verdict)
-  | "rd", h1 :: i :: _ =>
-    let i ← natTok i
-    match s.id? h1 with
-    | none => return (s, "nohandle", "ok")
-    | some pid =>
-      let po := s.store[pid]!
-      let r : R Val := do
-        let (et, en) ← getElemNode po.ty po.node i
-        if !viewFromBackingOk et en then .error .other else viewVal et en
-      let m := match r with | .ok v => s!"ok {showVal v}" | .error e => errClass e
-      let verdict := match s.vh? h1 with
-        | some vh =>
-          match valElem vh.ty vh.val i with
-          | some (_, x) => if " ".intercalate impl == s!"ok {showVal x}" || (s.partialTree && impl == ["err"]) then "ok" else "FAIL:element-read"
-          | none => if impl == ["err"] then "ok" else "FAIL:out-of-range-read-accepted"
-        | none => "ok"
-      return (s, m, verdict)
+    withId h1 fun id => pure (both s (.chg id sel x) impl none (some id))
+  | "obs", h1 :: _ => withId h1 fun id => pure (both s (.obs id) impl)
+  | "len", h1 :: _ => withId h1 fun id => pure (both s (.len id) impl)
+  | "rd", h1 :: i :: _ => do let i ← natTok i; withId h1 fun id => pure (both s (.rd id i) impl)
   | "rset", h1 :: x :: _ =>
-    -- SetBacking on a byte-vector view: RootView (32 bytes) rewrites itself, others refuse
-    match s.id? h1 with
-    | none => return (s, "nohandle", "ok")
-    | some pid =>
-      let po := s.store[pid]!
+    -- SetBacking on a byte-vector view: RootView (32 bytes) rewrites itself, others refuse.
+    -- The view is detached: nothing else may change.
+    withId h1 fun id => do
+      let o := s.ms[id]!
       let bs := (parseHex x).getD []
-      match po.ty with
+      match o.ty with
       | .bytesN 32 =>
-        let s1 := { s with store := s.store.set! pid { po with node := .leaf (chunkOf bs) } }
-        let (s2, _) := applyVal s1 h1 fun _ => some (.bytes (chunkOf bs))
-        return (s2, "ok", if impl == ["ok"] then "ok" else "FAIL:rootview-setbacking")
-      | .uint _ | .bool | .bytesN _ => return (s, "err", "ok")
-      | _ => return (s, "-", "ok")
+        let s1 := { s with ms := s.ms.set! id { o with node := .leaf (chunkOf bs) },
+                           vs := s.vs.set! id { (s.vs[id]!) with val := .bytes (chunkOf bs) } }
+        pure (s1, "ok", if impl == ["ok"] then "ok" else "FAIL:rootview-setbacking")
+      | .uint _ | .bool | .bytesN _ => pure (s, "err", "ok")
+      | _ => pure (s, "-", "ok")
   | "rtxt", h1 :: x :: _ =>
-    match s.id? h1 with
-    | none => return (s, "nohandle", "ok")
-    | some pid =>
-      let po := s.store[pid]!
+    withId h1 fun id => do
+      let o := s.ms[id]!
       let bs := (parseHex x).getD []
-      match po.ty with
+      match o.ty with
       | .bytesN k =>
-        if bs.length != k then return (s, "err", "ok") else
-        let s1 := { s with store := s.store.set! pid { po with node := .leaf (chunkOf bs) } }
-        let (s2, _) := applyVal s1 h1 fun _ => some (.bytes bs)
-        return (s2, "ok", if impl == ["ok"] then "ok" else "FAIL:unmarshal-text")
-      | _ => return (s, "err", "ok")
+        if bs.length != k then pure (s, "err", "ok") else
+        let s1 := { s with ms := s.ms.set! id { o with node := .leaf (chunkOf bs) },
+                           vs := s.vs.set! id { (s.vs[id]!) with val := .bytes bs } }
+        pure (s1, "ok", if impl == ["ok"] then "ok" else "FAIL:unmarshal-text")
+      | _ => pure (s, "err", "ok")
   | "sum", h1 :: _ :: gs =>
-    match s.id? h1 with
-    | none => return (s, "nohandle", "ok")
-    | some pid =>
-      let po := s.store[pid]!
-      let r : R Node := gs.foldlM (fun n g => summarizeInto sha n (gbits ((g.toNat?).getD 1))) po.node
+    withId h1 fun id => do
+      let o := s.ms[id]!
+      let r : R Node := gs.foldlM (fun n g => summarizeInto sha n (gbits ((g.toNat?).getD 1))) o.node
       match r with
-      | .error e => return (s, errClass e, if impl == ["panic"] then "FAIL:panic" else "ok")
+      | .error e => pure (s, render (outOfErr e), if impl == ["panic"] then "FAIL:panic" else "ok")
       | .ok n' =>
-        let (st', err) := setBacking sha (s.store.size + 1) s.store pid n'
-        let m := match err with | none => "ok" | some e => errClass e
-        return ({ s with store := st', partialTree := true }, m, if impl == ["panic"] then "FAIL:panic" else "ok")
+        let (st', err) := setBacking sha (s.ms.size + 1) s.ms id n'
+        let m := match err with | none => "ok" | some e => render (outOfErr e)
+        pure ({ s with ms := st', partialTree := true }, m, if impl == ["panic"] then "FAIL:panic" else "ok")
   | "snap", _ => return (s, "ok", if impl == ["ok"] then "ok" else "FAIL:snapshot")
   | "chk", _ => return (s, "ok same", if impl == ["ok", "same"] then "ok" else "FAIL:old-version-changed")
   | "memo", h1 :: _ =>
-    match s.id? h1 with
-    | none => return (s, "nohandle", "ok")
-    | some _ => return (s, "ok bad=0", if impl == ["ok", "bad=0"] then "ok" else "FAIL:stale-memoised-root")
+    withId h1 fun _ => pure (s, "ok bad=0", if impl == ["ok", "bad=0"] then "ok" else "FAIL:stale-memoised-root")
   | "hcount", h1 :: _ =>
-    match s.id? h1 with
-    | none => return (s, "nohandle", "ok")
-    | some pid =>
-      let po := s.store[pid]!
+    withId h1 fun id => do
+      let o := s.ms[id]!
       -- exact counts are informational; PROP: second request free, first within the path bound
-      let verdict := match impl with
+      let v := match impl with
         | ["ok", root, calls, again] =>
           let c := ((calls.drop 6).toString.toNat?).getD 0
           let a := ((again.drop 6).toString.toNat?).getD 1
-          if root != hex (po.node.root sha) then "FAIL:root"
+          if root != hex (o.node.root sha) then "FAIL:root"
           else if a != 0 then s!"FAIL:second-request-hashed-{a}"
           else match s.bound with
             | some b => if c ≤ b then "ok" else s!"FAIL:hash-calls-{c}-exceed-path-bound-{b}"
             | none => "ok"
         | _ => "FAIL:unexpected-observation"
-      return ({ s with bound := some 0 }, "-", verdict)
+      pure ({ s with bound := some 0 }, "-", v)
   | "iter", h1 :: kind :: _ =>
-    match s.id? h1 with
-    | none => return (s, "nohandle", "ok")
-    | some pid =>
-      let po := s.store[pid]!
-      let iterable := match po.ty with
+    withId h1 fun id => do
+      let o := s.ms[id]!
+      let iterable := match o.ty with
         | .bitvector _ | .bitlist _ | .vector _ _ | .list _ _ | .container _ => true
         | _ => false
-      if !iterable then return (s, "err", "ok") else
-      let m := runIter po.ty po.node (kind == "ro")
-      let verdict := match s.vh? h1 with
-        | some vh =>
-          let sp := specIter vh.ty vh.val
-          if " ".intercalate impl == sp then "ok"
-          else if s.partialTree then
-            -- a prefix of the right components followed by an error is acceptable; a wrong component is not
-            let toks := impl
-            let spToks := (sp.splitOn " ").filter (· ≠ "")
-            let isPrefixThenErr := toks.getLast? == some "E" && (toks.dropLast.zip spToks).all (fun (a, b) => a == b) && toks.length - 1 ≤ spToks.length
-            let xOk := toks.any (· == "|X")   -- an element whose getters failed: allowed on partial trees
-            if isPrefixThenErr || xOk then "ok" else s!"FAIL:partial-iterator-yields-different-data:spec={sp.take 200}"
-          else s!"FAIL:iterator-differs-from-indexed-access:spec={sp.take 200}"
-        | none => "ok"
-      return (s, m, verdict)
+      if !iterable then pure (s, "err", "ok") else
+      let m := runIter o.ty o.node (kind == "ro")
+      let vo := s.vs[id]!
+      let sp := specIter vo.ty vo.val
+      let v :=
+        if " ".intercalate impl == sp then "ok"
+        else if s.partialTree then
+          -- a prefix of the right components followed by an error is acceptable; a wrong component is not
+          let spToks := (sp.splitOn " ").filter (· ≠ "")
+          let isPrefixThenErr := impl.getLast? == some "E" && (impl.dropLast.zip spToks).all (fun (a, b) => a == b) && impl.length - 1 ≤ spToks.length
+          let xOk := impl.any (· == "|X")
+          if isPrefixThenErr || xOk then "ok" else s!"FAIL:partial-iterator-yields-different-data:spec={sp.take 200}"
+        else s!"FAIL:iterator-differs-from-indexed-access:spec={sp.take 200}"
+      pure (s, m, v)
   | _, _ => throw s!"bad history op {name}"
 
 def handle (s : HState) (name : String) (args impl : List String) : Option (Except String (HState × String × String)) :=
